@@ -15,8 +15,8 @@ RULE = ("sequences of 1-4 raw frames (half of them through a ring of 1-4 REUSED 
         "bytes, plus fixed 'valid then header-less' sequences; evaluations = frames; non-trivial = the frame gets past the "
         "first header (not rejected as too short for Ethernet/IPv4); distinct by (configuration, frame bytes)")
 
-KIND = {"tcp": 0, "tcpsyn": 1, "icmp": 2, "arp": 3}
-SCAN = {"tcp": "tcpflags", "tcpsyn": "tcpsyn", "icmp": "icmp"}
+KIND = {"tcp": 0, "tcpsyn": 1, "icmp": 2, "udp": 2, "arp": 3}
+SCAN = {"tcp": "tcpflags", "tcpsyn": "tcpsyn", "icmp": "icmp", "udp": "udp"}
 LETTERS = [(1, "s"), (4, "a"), (0, "f"), (2, "r"), (3, "p"), (5, "u"), (6, "e"), (7, "c"), (8, "n")]
 
 
@@ -53,7 +53,7 @@ def expected_record(kind, vpn, f):
         if len(f) < 14 or be16(f, 12) != 0x0800:
             return None
         p = f[14:]
-    if kind == "icmp":
+    if kind in ("icmp", "udp"):
         s = ip_chain(p, 1)
         if s is None or len(s) < 8:
             return None
@@ -87,8 +87,9 @@ def judge(kind, vpn, frame_hex, o):
                                     " type %d code %d ttl %d" % (o["type"], o["code"], o["ttl"]) if o["rec"] == "icmp" else
                                     " " + o.get("mactext", ""))
     if exp is None:
-        return ("phantom:" + kind, "a record (%s) is emitted for a frame that has no well-formed %s header chain" % (
-            shown.strip(), {"tcp": "IPv4+TCP", "tcpsyn": "IPv4+TCP", "icmp": "IPv4+ICMP", "arp": "Ethernet/IPv4 ARP (6/4)"}[kind]))
+        return ("phantom:" + kind, "a record (%s) is emitted for a frame that has no well-formed header chain %s" % (
+            shown.strip(), {"tcp": "IPv4+TCP", "tcpsyn": "IPv4+TCP", "icmp": "IPv4+ICMP", "udp": "IPv4+ICMP", "arp": "Ethernet/IPv4 ARP (6/4)"}[kind]
+            + (" in raw-IP link mode" if vpn else "")))
     if got != exp:
         return ("fields:" + kind, "the record (%s) differs from the fields of the frame itself (%s)" % (shown.strip(), exp))
     if o["rec"] == "arp" and not o["vendor_ok"]:
@@ -108,8 +109,8 @@ def nf(o):
         return "(2,[%d],[])" % o["err"]
     if o["k"] == 3:
         return "(3,[],[])"
-    if o["k"] == 4:
-        return "(4,[],[])"
+    if o["k"] in (4, 5):
+        return "(%d,[],[])" % o["k"]
     if o["rec"] == "tcp":
         return "(1,[10;%d],[%s;%s])" % (o["port"], bl(o["ip"]), bl([ord(c) for c in o["flags"]]))
     if o["rec"] == "icmp":
@@ -154,13 +155,21 @@ def parse_eval(ctx, out, rows):
 
 
 # ------------------------------------------------------------------ reporting
-def run_sequences(ctx, seqs, tag):
-    """Run explicit sequences [{kind,vpn,frames}] on the real code; returns rows."""
+def have_cmd_driver():
+    return os.path.exists(os.path.join(verif.REPO, "command", "verif_export_c06.go"))
+
+
+def run_sequences(ctx, seqs, tag, driver="c06"):
+    """Run explicit sequences [{kind,vpn,frames}] on the real code; returns rows. driver c06 = processors from the
+    library constructors, c06cmd = the scan methods as the commands build them."""
     path = os.path.join(ctx.work, tag + ".in.json")
     with open(path, "w") as f:
         json.dump(seqs, f)
-    ok, _ = ctx.harness_run("c06", ["-out", tag + ".jsonl", "-replay", path], timeout=600)
-    return ctx.read_jsonl(os.path.join(ctx.work, tag + ".jsonl")) if ok else []
+    ok, _ = ctx.harness_run(driver, ["-out", tag + ".jsonl", "-replay", path], timeout=600)
+    rows = ctx.read_jsonl(os.path.join(ctx.work, tag + ".jsonl")) if ok else []
+    for r in rows:
+        r["driver"] = driver
+    return rows
 
 
 def first_violation(row):
@@ -179,7 +188,8 @@ def minimise(ctx, row, i, key):
     # records are read after the whole sequence, so a later frame can also be what spoils the record of frame i
     cands = ([([fr[i]], ring)] + [([fr[j], fr[i]], r) for j in range(i) for r in sorted({ring, min(ring, 1)})]
              + [([fr[i], fr[k]], ring) for k in range(i + 1, len(fr))] + [(fr[:i + 1], ring), (fr, ring)])
-    rows = run_sequences(ctx, [{"kind": row["kind"], "vpn": row["vpn"], "ring": r, "frames": c} for c, r in cands], "min")
+    rows = run_sequences(ctx, [{"kind": row["kind"], "vpn": row["vpn"], "ring": r, "frames": c} for c, r in cands], "min",
+                         row.get("driver", "c06"))
     best, stale = None, None
     for r in rows:
         v = first_violation(r)
@@ -194,6 +204,9 @@ def minimise(ctx, row, i, key):
 
 def report(ctx, row, i, why, seen):
     key, reason = why
+    if row.get("driver") == "c06cmd":
+        key, reason = key + ":cmd", "[scan method as built by the `%s` command%s] %s" % (
+            row["kind"], ", VPN mode" if row["vpn"] else "", reason)
     if key in seen:
         seen[key] += 1
         return
@@ -203,7 +216,7 @@ def report(ctx, row, i, why, seen):
         reason = why2[1]
     path = ctx.write_replay(key.replace(":", "-"), {
         "property": "C06", "what": reason,
-        "input": {"kind": small["kind"], "vpn": small["vpn"], "ring": small.get("ring", 0),
+        "input": {"kind": small["kind"], "vpn": small["vpn"], "ring": small.get("ring", 0), "driver": row.get("driver", "c06"),
                   "frames": small["frames"], "failing_frame": j},
         "observed": small["obs"], "replay_cmd": "bin/check C06 --replay <this file>"})
     ctx.findings.append({"key": key, "what": reason, "replay": path})
@@ -215,7 +228,8 @@ def report(ctx, row, i, why, seen):
                 "alone it is reported as %s" % (nf(r["obs"][-1]), nf(alone)))
         path = ctx.write_replay(skey.replace(":", "-"), {
             "property": "C06", "what": what,
-            "input": {"kind": r["kind"], "vpn": r["vpn"], "ring": r.get("ring", 0), "frames": r["frames"],
+            "input": {"kind": r["kind"], "vpn": r["vpn"], "ring": r.get("ring", 0), "driver": row.get("driver", "c06"),
+                      "frames": r["frames"],
                       "failing_frame": len(r["frames"]) - 1},
             "observed": r["obs"], "alone": alone, "replay_cmd": "bin/check C06 --replay <this file>"})
         ctx.findings.append({"key": skey, "what": what, "replay": path})
@@ -265,11 +279,23 @@ def run(ctx):
         ok, _ = ctx.harness_run("c06", args, timeout=3000)
         if ok:
             rows += ctx.read_jsonl(os.path.join(ctx.work, "cases.jsonl"))
+        # the same generator against the scan methods as the commands build them (both link modes)
+        if not have_cmd_driver():
+            ctx.skipped.append("command-built scan methods: hook command/verif_export_c06.go is not in the tree")
+        elif ctx.harness_build("c06cmd"):
+            ok, _ = ctx.harness_run("c06cmd", ["-out", "cmd.jsonl", "-seed", ctx.seed + 17, "-n", 500 if quick else 20000,
+                                               "-big", 4 if quick else 100], timeout=3000)
+            if ok:
+                more = ctx.read_jsonl(os.path.join(ctx.work, "cmd.jsonl"))
+                for r in more:
+                    r["driver"] = "c06cmd"
+                rows += more
     for r in rows:
         for i, o in enumerate(r["obs"]):
-            cls = "%s/%s/%s%s/%s" % (r["kind"], "raw-ip" if r["vpn"] else "eth", r["classes"][i], "+ring" if r.get("ring") else "",
-                                    ["none", "record", "error", "crash", "multi"][o["k"]])
+            cls = "%s%s/%s/%s%s/%s" % ("cmd:" if r.get("driver") == "c06cmd" else "", r["kind"], "raw-ip" if r["vpn"] else "eth", r["classes"][i], "+ring" if r.get("ring") else "",
+                                    ["none", "record", "error", "crash", "multi", "unobservable"][o["k"]])
             key = hashlib.md5((r["kind"] + str(r["vpn"]) + r["frames"][i]).encode()).digest()
+            key = key + (b"cmd" if r.get("driver") == "c06cmd" else b"")
             ctx.count(cls, key, nontrivial=not (o["k"] == 2 and o["err"] in (1, 2) and i == 0 or
                                                 o["k"] == 2 and o["err"] == 1),
                       sample={"kind": r["kind"], "vpn": r["vpn"], "family": r["classes"][i], "frame": r["frames"][i][:160],
@@ -315,10 +341,11 @@ def replay(ctx, path):
     if "input" not in r:
         print(json.dumps(r, indent=1))
         return 1
-    if not ctx.harness_build("c06"):
-        return 1
     i = r["input"]
-    rows = run_sequences(ctx, [{"kind": i["kind"], "vpn": i["vpn"], "ring": i.get("ring", 0), "frames": i["frames"]}], "replay")
+    if not ctx.harness_build(i.get("driver", "c06")):
+        return 1
+    rows = run_sequences(ctx, [{"kind": i["kind"], "vpn": i["vpn"], "ring": i.get("ring", 0), "frames": i["frames"]}], "replay",
+                         i.get("driver", "c06"))
     if not rows:
         print("replay: the harness did not run")
         return 1
